@@ -26,6 +26,11 @@ import FV.Proofs.Spectral
   power iteration) is NOT proved: every theorem is conditional on `.ok`, and non-returning runs on admissible inputs
   are searched for by the harness (reported as `operation-raised`).
 
+  Best-of-n (`best_of_n`: first strictly smallest wirelength among the trials run; `non_finite_wirelength_asserts`: an
+  `inf` / NaN wirelength never wins and, if all are, the `assert best_coord is not None` fails), dropped centres
+  (`centres_after_layout`), rigid recentring (`recenter_rigid`, `movable_position`), areas / flags / shapes
+  (`areas_nets_unchanged`).
+
   NOT proved (float matters, decided by search in `harness/props/c14.py`): IEEE rounding (the disc is inside
   up to `1e-9 * size`), the orthogonality `assert` and the divisions not failing on admissible inputs (the
   model returns `Err` there and the theorems are conditional on `.ok`), convergence (not needed).
@@ -298,6 +303,58 @@ theorem movable_position (o : Ops α) (mods : List (SMod α β)) (nets : List (S
     obtain ⟨dx, dy, e, _⟩ := recenter_rigid _ _ _ hr
     exact ⟨dx, dy, e⟩
 
+/-! ### best-of-n, dropped centres -/
+
+/-- `best_of_n`: the trial kept by `spectral_layout` is the FIRST of strictly smallest wirelength among the
+    `max(nfloorplans, 1)` trials actually run (each starting with the draws its predecessor left) — when every
+    wirelength is below `inf` (always so in exact arithmetic). -/
+theorem best_of_n (o : Ops α) (mods : List (SMod α β)) (nets : List (SNet α)) (W H : α)
+    (nfl : Nat) (draws : List α) (maxIter : Nat) (out : List (SMod α β)) (b : DieResult α)
+    (h : spectralLayoutTrace o mods nets W H nfl draws maxIter = .ok (out, b)) (hlt : ∀ x, o.ltInf x = true) :
+    ∃ adj rs l1 l2, buildAdj mods.length nets = .ok adj ∧
+      trialResults o adj (mods.map (·.mass)) W H (initCentres mods nfl false) (initCentres mods nfl true)
+        (mods.map (·.fixed)) maxIter (if nfl = 0 then 1 else nfl) draws = .ok rs ∧
+      rs.length = (if nfl = 0 then 1 else nfl) ∧
+      rs = l1 ++ b :: l2 ∧ (∀ x ∈ l1, b.wl < x.wl) ∧ (∀ x ∈ l2, b.wl ≤ x.wl) := by
+  obtain ⟨adj, rs, ha, hrs, hf⟩ := trace_trials o mods nets W H nfl draws maxIter out b h
+  rcases betterTrial_fold_spec o hlt rs with ⟨_, hn⟩ | ⟨b', l1, l2, hb, e, m1, m2⟩
+  · rw [hn] at hf; cases hf
+  · rw [hb] at hf
+    cases hf
+    exact ⟨adj, rs, l1, l2, ha, hrs, trialResults_length _ _ _ _ _ _ _ _ _ _ _ _ hrs, e, m1, m2⟩
+
+/-- non-finite wirelength: a trial whose wirelength is not below `inf` (`inf` / NaN on doubles) never wins; when ALL
+    trials are like that `best_coord` stays `None` and `spectral_layout` fails its `assert` — the model raises the same
+    `AssertionError` (it used to keep the first trial). -/
+theorem non_finite_wirelength_asserts (o : Ops α) (mods : List (SMod α β)) (nets : List (SNet α)) (W H : α)
+    (nfl : Nat) (draws : List α) (maxIter : Nat) (adj : List (List (Edge α))) (rs : List (DieResult α))
+    (ha : buildAdj mods.length nets = .ok adj)
+    (hrs : trialResults o adj (mods.map (·.mass)) W H (initCentres mods nfl false) (initCentres mods nfl true)
+        (mods.map (·.fixed)) maxIter (if nfl = 0 then 1 else nfl) draws = .ok rs)
+    (hinf : ∀ r ∈ rs, o.ltInf r.wl = false) :
+    spectralLayout o mods nets W H nfl draws maxIter = .error .assertion := by
+  unfold spectralLayout
+  rw [trace_nonfinite o mods nets W H nfl draws maxIter adj rs ha hrs hinf]
+  rfl
+
+/-- `centres_after_layout` ("drop hard centres"): in the result every hard non-terminal module (fixed or movable) has NO
+    centre; every other module (soft, terminal) has the centre `b[i] + size/2` of the winning trial. -/
+theorem centres_after_layout (o : Ops α) (mods : List (SMod α β)) (nets : List (SNet α)) (W H : α)
+    (nfl : Nat) (draws : List α) (maxIter : Nat) (out : List (SMod α β)) (b : DieResult α)
+    (h : spectralLayoutTrace o mods nets W H nfl draws maxIter = .ok (out, b))
+    (i : Nat) (m : SMod α β) (hi : mods[i]? = some m) :
+    ∃ m' : SMod α β, out[i]? = some m' ∧
+      ((m.hard = true ∧ m.terminal = false) → m'.center = none) ∧
+      (¬ (m.hard = true ∧ m.terminal = false) → m'.center = some (vat b.xs i + W / 2, vat b.ys i + H / 2)) := by
+  obtain ⟨adj, dr, _, _, _, _, hm⟩ := layout_structure o mods nets W H nfl draws maxIter out b h
+  obtain ⟨m', a1, a2⟩ := hm i m hi
+  obtain ⟨_, _, _, _, _, s6, _⟩ := finishModule_spec m m' _ a2
+  refine ⟨m', a1, ?_, ?_⟩
+  · rintro ⟨hh, ht⟩; rw [s6]; simp [hh, ht]
+  · intro hn
+    rw [s6]
+    cases hh : m.hard <;> cases ht : m.terminal <;> simp_all
+
 /-- the admissibility hypotheses of the property. -/
 structure Admissible (o : Ops α) (mods : List (SMod α β)) (nets : List (SNet α)) (W H : α) : Prop where
   /-- at least four movable modules -/
@@ -419,6 +476,28 @@ example (out : List (SMod Rat Unit)) (b : DieResult Rat)
       DiscInDie 10 8 p.1 p.2 (opsQ.sqrt ((3 : Rat) / opsQ.pi)) :=
   layout_disc_inside_partial opsQ modsQ netsQ 10 8 2 drawsQ 2 out b h (fun _ => by simp [opsQ]) modsQ_admissible
     0 ⟨none, 3, false, false, false, [], ()⟩ rfl rfl dX dY
+
+/-- `best_of_n` applied to the same run (two trials): the kept trial is the first of strictly smallest wirelength. -/
+example (out : List (SMod Rat Unit)) (b : DieResult Rat)
+    (h : spectralLayoutTrace opsQ modsQ netsQ 10 8 2 drawsQ 2 = .ok (out, b)) :
+    ∃ adj rs l1 l2, buildAdj modsQ.length netsQ = .ok adj ∧
+      trialResults opsQ adj (modsQ.map (·.mass)) 10 8 (initCentres modsQ 2 false) (initCentres modsQ 2 true)
+        (modsQ.map (·.fixed)) 2 (if 2 = 0 then 1 else 2) drawsQ = .ok rs ∧
+      rs.length = (if 2 = 0 then 1 else 2) ∧ rs = l1 ++ b :: l2 ∧ (∀ x ∈ l1, b.wl < x.wl) ∧ (∀ x ∈ l2, b.wl ≤ x.wl) :=
+  best_of_n opsQ modsQ netsQ 10 8 2 drawsQ 2 out b h (fun _ => rfl)
+
+/-- a numeric library whose every wirelength is "not below inf" (what `inf` / NaN wirelengths are on doubles): the same
+    run now fails the `assert best_coord is not None`, as the Python does. -/
+def opsInf : Ops Rat := { opsQ with ltInf := fun _ => false }
+example : (match spectralLayout opsInf modsQ netsQ 10 8 2 drawsQ 2 with | .error .assertion => true | _ => false) = true := by
+  decide +kernel
+
+/-- hard centres are dropped, soft centres are set (module 2 is the movable hard module, module 0 a soft one). -/
+example (out : List (SMod Rat Unit)) (b : DieResult Rat)
+    (h : spectralLayoutTrace opsQ modsQ netsQ 10 8 2 drawsQ 2 = .ok (out, b)) :
+    ∃ m' : SMod Rat Unit, out[2]? = some m' ∧ m'.center = none := by
+  obtain ⟨m', a, hd, _⟩ := centres_after_layout opsQ modsQ netsQ 10 8 2 drawsQ 2 out b h 2 _ rfl
+  exact ⟨m', a, hd ⟨rfl, rfl⟩⟩
 
 end Examples
 
